@@ -1,7 +1,14 @@
-use std::sync::{Arc, RwLock};
+use std::sync::Arc;
+#[cfg(not(qvnt_verif))]
+use std::sync::RwLock;
 
 use lazy_static::*;
 use rayon::*;
+
+// under `--cfg qvnt_verif` the lock and the pool are logging stand-ins (these names shadow
+// the glob import above)
+#[cfg(qvnt_verif)]
+use crate::verif::pool::{RwLock, ThreadPool, ThreadPoolBuilder};
 
 lazy_static! {
     static ref GLOBAL_POOL: RwLock<Option<(usize, Arc<ThreadPool>)>> = RwLock::new(None);
@@ -50,6 +57,8 @@ where
     OP: FnOnce() -> R + Send,
     R: Send,
 {
+    #[cfg(qvnt_verif)]
+    crate::verif::pool::log_call(num_threads);
     match get_current_num_threads() {
         Some(th) if th == num_threads => {}
         _ => set_num_threads(num_threads),
